@@ -92,6 +92,7 @@ def base_scenario(rng, **o):
     sc["numrec"] = o.get("numrec", rng.choice([0, 0, 1, 2, 3]))
     sc["layout"] = o.get("layout", "sparse" if rng.random() < 0.75 else "dense")
     sc["pvars"] = o.get("pvars", rng.random() < 0.6)
+    sc["token"] = rng.randrange(1, 10**6)
     sc["cls"] = dict(rev=rev, cont=cont, adv=sc["adv"], layout=sc["layout"], split=sc["numrec"] > 0, pvars=sc["pvars"],
                      ops_divides=(nsteps % sc["ops"] == 0), multifile=len(sc["cuts"]) > 0, nsteps=nsteps, ops=sc["ops"], numrec=sc["numrec"])
     return sc
@@ -143,7 +144,7 @@ def setup_event(sc):
                 grid=dict(i0=i0, i1=i1, j0=j0, j1=j1, dt=sc["dt"], dx=int(sc["dx"]), dy=int(sc["dy"]),
                           mask=[row[i0:i1] for row in M[j0:j1]]),
                 kill=sc["kill"], freeze=sc.get("freeze", []), out=dict(ops=sc["ops"], numrec=sc["numrec"], sparse=sc["layout"] == "sparse", pvars=sc["pvars"]),
-                warm=bool(sc.get("warm")), vert=bool(sc.get("vert")))
+                warm=bool(sc.get("warm")), vert=bool(sc.get("vert")), token=sc.get("token", 0))
 
 
 def write_release(sc, path):
@@ -289,6 +290,14 @@ def run_e2e(sc):
         if sc.get("warm"):
             sc = dict(sc, warm=dict(sc["warm"], file=os.path.join(work, sc["warm"]["name"])))
         conf = config(sc, work)
+        # the IBM plug-in is a per-scenario file with the SAME base name as an importable module (harness/plugins/rec_ibm.py
+        # is on sys.path): "user modules given by path are the ones that run" - the token proves which file ran
+        token = sc.get("token", 0)
+        with open(PLUG % "ibm") as f:
+            src = f.read().replace("TOKEN = -1", f"TOKEN = {token}")
+        with open(os.path.join(work, "rec_ibm.py"), "w") as f:
+            f.write(src)
+        conf["ibm"]["module"] = os.path.join(work, "rec_ibm" if sc.get("token", 0) % 2 else "rec_ibm.py")
         cpath = os.path.join(work, "ladim.yaml")
         with open(cpath, "w") as f:
             yaml.safe_dump(conf, f)
